@@ -561,8 +561,12 @@ func C33Run(r *verifmc.Report, decs []C33Decoder, cfg C33Config) (rejected []str
 		r.Add("catalogue_entries", int64(len(decs[di].Catalogue)))
 	}
 	hung := make([]int32, len(decs))
+	var nSamples int32
 	record := func(in *c33Input, ev c33Eval) {
 		d := &decs[in.dec]
+		if len(in.data) > 2 && atomic.AddInt32(&nSamples, 1) <= 6 {
+			r.Sample(map[string]any{"decoder": d.Name, "input_hex": verifmc.Hex(in.data), "derivation": in.label, "outcome": ev.outcome})
+		}
 		r.Outcome(d.Name + ":" + ev.outcome)
 		r.Outcome("derivation:" + strings.SplitN(in.shape, ":", 2)[0] + ":" + ev.outcome)
 		if ev.outcome != "error" {
